@@ -13,6 +13,12 @@ writes them to `lean/GPVerif/Gen/BatchChoreo.lean` as op lists of `GPVerif/Model
   mlls/_approximate_mll.py     _ApproximateMarginalLogLikelihood.forward  prior reduction        -> approxPriorOps
   mlls/sum_marginal_log_likelihood.py    SumMarginalLogLikelihood.forward                        -> sumMllOps
   models/model_list.py         IndependentModelList.forward / __call__                           -> modelListForwardForm / CallForm
+  models/model_list.py         IndependentModelList.train_inputs / train_targets (decorator + body)  -> modelListTrainInputs / Targets
+  mlls/leave_one_out_pseudo_likelihood.py  forward: `num_data = …; return res.div_(num_data) - c`     -> looNormaliser
+  mlls/exact_marginal_log_likelihood.py    forward: `num_data = …; return res.div_(num_data)`         -> exactNormaliser
+  models/exact_prediction_strategies.py    'fill' branches of _mean_cache / _exact_predictive_covar_missing_obs,
+  likelihoods/gaussian_likelihood.py       'fill' branches of expected_log_prob / log_marginal: the missing mask
+                                                                                                   -> *FillMask (MaskE)
 
 Vocabulary of tensor method chains: `unsqueeze(c)`, `view(*S, lits…)`, `view(*x.shape[:n], -1)`, `expand(*S, lits…)`,
 `expand(S)`, `contiguous()`, `sum(dim=-1)` / `sum(-1)`, `sum(dim=tuple(range(n, x.ndim)))`; shapes `x.shape`,
@@ -468,12 +474,173 @@ def tr_model_list(repo):
     return out
 
 
+# ------------------------------------------------------------------ wave 3: normalisers, fill masks, list properties
+
+def norm_expr(node, reshaped_to_target):
+    """the integer an exact objective divides by -> Lean `NormE` text"""
+    src = ast.unparse(node)
+    v = _int(node)
+    if v is not None and v >= 0:
+        return f"(.lit {v})"
+    m = None
+    # target.size(-k) / target.shape[-k]
+    if isinstance(node, ast.Call) and isinstance(node.func, ast.Attribute) and node.func.attr == "size" \
+            and ast.unparse(node.func.value) == "target" and len(node.args) == 1:
+        m = _int(node.args[0])
+    if isinstance(node, ast.Subscript) and ast.unparse(node.value) == "target.shape":
+        m = _int(node.slice)
+    if m is not None:
+        if m >= 0:
+            _fail(node, "target dimension counted from the front (depends on the batch rank)")
+        return f"(.targetSize {-m - 1})"
+    if src in ("target.numel()", "target.nelement()"):
+        return ".targetNumel"
+    if isinstance(node, ast.Call) and isinstance(node.func, ast.Attribute) and node.func.attr in ("numel", "nelement") \
+            and not node.args and ast.unparse(node.func.value) in reshaped_to_target:
+        return ".targetNumel"
+    if src in ("function_dist.event_shape.numel()", "output.event_shape.numel()"):
+        return ".eventNumel"
+    _fail(node, "normaliser outside vocabulary")
+
+
+def tr_norms(repo):
+    out = {}
+    for rel, cls, key, shifted in (("gpytorch/mlls/leave_one_out_pseudo_likelihood.py", "LeaveOneOutPseudoLikelihood", "looNormaliser", True),
+                                   ("gpytorch/mlls/exact_marginal_log_likelihood.py", "ExactMarginalLogLikelihood", "exactNormaliser", False)):
+        fn = _method(_parse(repo, rel), cls, "forward")
+        reshaped, env, ret = set(), {}, None
+        for st in ast.walk(fn):
+            if isinstance(st, ast.Assign) and len(st.targets) == 1 and isinstance(st.targets[0], ast.Name):
+                nm, v = st.targets[0].id, st.value
+                # m = m.reshape(*target.shape): from here on `m` has as many entries as the target
+                if isinstance(v, ast.Call) and isinstance(v.func, ast.Attribute) and v.func.attr in ("reshape", "view") \
+                        and [ast.unparse(a) for a in v.args] == ["*target.shape"]:
+                    reshaped.add(nm)
+                if nm == "num_data":
+                    env["num_data"] = v
+            if isinstance(st, ast.Return):
+                ret = st.value
+        if ret is None:
+            raise TranslateError(f"{cls}.forward: no return")
+        core = ret
+        if shifted:
+            # res.div_(N) - <constant>
+            if not (isinstance(ret, ast.BinOp) and isinstance(ret.op, ast.Sub)
+                    and not any(isinstance(n, ast.Name) and n.id != "math" for n in ast.walk(ret.right))):
+                _fail(ret, "expected `res.div_(num_data) - <constant>`")
+            core = ret.left
+        if isinstance(core, ast.Call) and isinstance(core.func, ast.Attribute) and core.func.attr in ("div_", "div") \
+                and ast.unparse(core.func.value) == "res" and len(core.args) == 1:
+            num = core.args[0]
+        elif isinstance(core, ast.BinOp) and isinstance(core.op, ast.Div) and ast.unparse(core.left) == "res":
+            num = core.right
+        else:
+            _fail(ret, "expected `res.div_(<normaliser>)`")
+        if isinstance(num, ast.Name):
+            if num.id not in env:
+                _fail(num, "normaliser bound to an unknown name")
+            num = env[num.id]
+        out[key] = norm_expr(num, reshaped)
+    return out
+
+
+def _policy_branch(fn, policy):
+    """statements (source order) of every `observation_nan_policy == policy` branch of `fn` (for 'fill' also a plain
+    `else` after 'mask')"""
+    found = []
+    for n in ast.walk(fn):
+        if not isinstance(n, ast.If):
+            continue
+        t = ast.unparse(n.test)
+        if t in (f"nan_policy == '{policy}'", f"settings.observation_nan_policy.value() == '{policy}'"):
+            found += n.body
+        elif policy == "fill" and t in ("nan_policy == 'mask'", "settings.observation_nan_policy.value() == 'mask'") \
+                and n.orelse and not (len(n.orelse) == 1 and isinstance(n.orelse[0], ast.If)):
+            found += n.orelse
+    if not found:
+        raise TranslateError(f"{fn.name}: branch for observation_nan_policy '{policy}' not found")
+    return sorted(found, key=lambda st: st.lineno)
+
+
+def mask_expr(node, env, labels):
+    """-> (base, negations) with base in {'isnan', 'observed'} or None when `node` is not a mask expression"""
+    if isinstance(node, ast.UnaryOp) and isinstance(node.op, ast.Invert):
+        r = mask_expr(node.operand, env, labels)
+        return None if r is None else (r[0], r[1] + 1)
+    if isinstance(node, ast.Name) and node.id in env:
+        return env[node.id]
+    if isinstance(node, ast.Call) and isinstance(node.func, ast.Attribute):
+        f = ast.unparse(node.func)
+        if node.func.attr in ("to", "float", "double", "bool", "reshape", "type_as") and not f.startswith("torch."):
+            return mask_expr(node.func.value, env, labels)
+        if f == "torch.isnan" and len(node.args) == 1 and ast.unparse(node.args[0]) in labels:
+            return ("isnan", 0)
+        if node.func.attr == "isnan" and not node.args and ast.unparse(node.func.value) in labels:
+            return ("isnan", 0)
+        if f.endswith("observation_nan_policy._get_observed") and node.args and ast.unparse(node.args[0]) in labels:
+            return ("observed", 0)
+    return None
+
+
+def tr_fill_masks(repo):
+    eps = _parse(repo, "gpytorch/models/exact_prediction_strategies.py")
+    gl = _parse(repo, "gpytorch/likelihoods/gaussian_likelihood.py")
+    sites = (("meanCacheFillMask", _method(eps, "DefaultPredictionStrategy", "_mean_cache"), {"self.train_labels"}),
+             ("covarFillMask", _method(eps, "DefaultPredictionStrategy", "_exact_predictive_covar_missing_obs"), {"self.train_labels"}),
+             ("elpFillMask", _method(gl, "_GaussianLikelihoodBase", "expected_log_prob"), {"target"}),
+             ("logMarginalFillMask", _method(gl, "_GaussianLikelihoodBase", "log_marginal"), {"observations"}))
+    out = {}
+    for key, fn, labels in sites:
+        env, found = {}, None
+        for st in _policy_branch(fn, "fill"):
+            for n in ast.walk(st):
+                if isinstance(n, ast.Assign) and len(n.targets) == 1 and isinstance(n.targets[0], ast.Name):
+                    r = mask_expr(n.value, env, labels)
+                    if r is not None:
+                        env[n.targets[0].id] = r
+                        found = found or r
+        if found is None:
+            raise TranslateError(f"{fn.name}: the 'fill' branch builds no missing / observed mask from {sorted(labels)}")
+        base, neg = found
+        out[key] = ".getObserved" if base == "observed" else (".notIsnanPerEntry" if neg % 2 else ".isnanPerEntry")
+    return out
+
+
+def tr_model_list_props(repo):
+    tree = _parse(repo, "gpytorch/models/model_list.py")
+    out = {}
+    for meth, key in (("train_inputs", "modelListTrainInputs"), ("train_targets", "modelListTrainTargets")):
+        fn = _method(tree, "IndependentModelList", meth)
+        decs = [ast.unparse(d) for d in fn.decorator_list]
+        if decs == ["property"]:
+            kind = ".perRead"
+        elif len(decs) == 1 and decs[0].split("(")[0].split(".")[-1] in ("cached_property", "cached", "lru_cache", "cache"):
+            kind = ".once"
+        elif len(decs) == 2 and decs[0] == "property" and decs[1].split("(")[0].split(".")[-1] in ("cached", "lru_cache", "cache"):
+            kind = ".once"
+        else:
+            _fail(fn, f"decorators {decs} outside vocabulary")
+        body = [s for s in fn.body if not (isinstance(s, ast.Expr) and isinstance(s.value, ast.Constant))]
+        if len(body) != 1 or not isinstance(body[0], ast.Return) or not isinstance(body[0].value, ast.ListComp):
+            _fail(fn, "expected a single `return [model.<attr> for model in self.models]`")
+        lc = body[0].value
+        g = lc.generators
+        if not (len(g) == 1 and not g[0].ifs and ast.unparse(g[0].iter) == "self.models" and isinstance(g[0].target, ast.Name)
+                and isinstance(lc.elt, ast.Attribute) and ast.unparse(lc.elt.value) == g[0].target.id
+                and lc.elt.attr in ("train_inputs", "train_targets")):
+            _fail(lc, "list comprehension outside vocabulary")
+        attr = ".trainInputs" if lc.elt.attr == "train_inputs" else ".trainTargets"
+        out[key] = f"⟨{kind}, {attr}⟩"
+    return out
+
+
 # ------------------------------------------------------------------ emit
 
 HEADER = """/-
 GENERATED by harness/translate/g3_batch_choreography.py from $VERIF_REPO — do not edit.
 -/
 import GPVerif.Model.ChoreoIR
+import GPVerif.Model.ObjectiveIR
 
 namespace Gen.BatchChoreo
 open Choreo
@@ -498,6 +665,16 @@ def emit(d):
     L.append(f"def sumMllOps : List ROp := {d['sumMllOps']}\n")
     L.append(f"def modelListForwardForm : ListForm := {d['modelListForwardForm']}\n")
     L.append(f"def modelListCallForm : ListForm := {d['modelListCallForm']}\n")
+    L.append("/-- what `LeaveOneOutPseudoLikelihood.forward` divides its per-batch-element sum by -/")
+    L.append(f"def looNormaliser : NormE := {d['looNormaliser']}\n")
+    L.append("/-- what `ExactMarginalLogLikelihood.forward` divides by -/")
+    L.append(f"def exactNormaliser : NormE := {d['exactNormaliser']}\n")
+    L.append("/-- the first missing / observed mask built in the `'fill'` branch of each site -/")
+    for k in ("meanCacheFillMask", "covarFillMask", "elpFillMask", "logMarginalFillMask"):
+        L.append(f"def {k} : MaskE := {d[k]}\n")
+    L.append("/-- `IndependentModelList.train_inputs` / `train_targets`: decorator and collected member attribute -/")
+    L.append(f"def modelListTrainInputs : ListProp := {d['modelListTrainInputs']}\n")
+    L.append(f"def modelListTrainTargets : ListProp := {d['modelListTrainTargets']}\n")
     L.append("end Gen.BatchChoreo")
     return "\n".join(L) + "\n"
 
@@ -515,6 +692,9 @@ def translate(repo):
                       "log_likelihood.ndim", "approxPriorOps"))
     d.update(tr_sum_mll(repo))
     d.update(tr_model_list(repo))
+    d.update(tr_norms(repo))
+    d.update(tr_fill_masks(repo))
+    d.update(tr_model_list_props(repo))
     return d
 
 
